@@ -95,8 +95,10 @@ type livelock struct{ in string }
 // whether the call returned normally; if not, a "panic" or "livelock" event
 // has been recorded and the script must stop.
 func (r *Rec) Call(in string, fn func()) (ok bool) {
-	r.watch.begin(in)
-	defer r.watch.end()
+	if r.watch != nil {
+		r.watch.begin(in)
+		defer r.watch.end()
+	}
 	defer func() {
 		if x := recover(); x != nil {
 			if ll, isLL := x.(livelock); isLL {
